@@ -50,3 +50,42 @@ Example c03_rejects_third :
     (ok_response [ok_assertion "2024-01-02T00:00:00Z"; ok_assertion "2024-01-02T00:00:00Z"; ok_assertion "2024-01-01T10:06:40+01:00"])
   = Err (EInvalidValue c_NotOnOrAfterAttr c_ReasonExpired "" "2024-01-01T10:06:40+01:00").
 Proof. vm_compute. reflexivity. Qed.
+
+(* ---------- acceptance depends on the SET of assertions and on four response fields only ---------- *)
+From Coq Require Import Permutation.
+Lemma acceptance_depends_on_assertion_set_only cfg now r r' :
+  r_destination r = r_destination r' -> r_version r = r_version r' ->
+  r_status r = r_status r' -> r_issuer r = r_issuer r' ->
+  (forall a, In a (r_assertions r) <-> In a (r_assertions r')) ->
+  (validate cfg now r = Ok tt <-> validate cfg now r' = Ok tt).
+Proof.
+  assert (half : forall r r', r_destination r = r_destination r' -> r_version r = r_version r' ->
+                 r_status r = r_status r' -> r_issuer r = r_issuer r' ->
+                 (forall a, In a (r_assertions r) <-> In a (r_assertions r')) ->
+                 validate cfg now r = Ok tt -> validate cfg now r' = Ok tt).
+  { clear r r'. intros r r' ED EV ES EI HS H. apply validate_ok_iff in H. apply validate_ok_iff.
+    destruct H as (HA & HN & HI & HSt & HF). unfold ProfileOK. rewrite <- ED, <- EV, <- ES, <- EI.
+    split; [exact HA|]. split.
+    - intros E. apply HN. destruct (r_assertions r) as [|a l]; [reflexivity|].
+      exfalso. assert (In a (r_assertions r')) as Hin by (apply HS; left; reflexivity). rewrite E in Hin. exact Hin.
+    - split; [exact HI|]. split; [exact HSt|].
+      rewrite Forall_forall in *. intros a Ha. apply HF. apply HS. exact Ha. }
+  intros ED EV ES EI HS. split; [apply half; assumption|].
+  apply half; try (symmetry; assumption). intros a. symmetry. apply HS.
+Qed.
+
+(* in particular: any reordering or duplication of the assertions, and any change of ID / InResponseTo / IssueInstant /
+   the encrypted-assertion count / the signature flag, leaves the verdict (accepted or not) unchanged *)
+Lemma acceptance_invariant_under_permutation cfg now r l :
+  Permutation (r_assertions r) l ->
+  (validate cfg now r = Ok tt <->
+   validate cfg now {| r_id := r_id r; r_in_response_to := r_in_response_to r; r_destination := r_destination r;
+                       r_version := r_version r; r_issue_instant := r_issue_instant r; r_status := r_status r;
+                       r_issuer := r_issuer r; r_assertions := l; r_encrypted_count := r_encrypted_count r;
+                       r_signature_validated := r_signature_validated r |} = Ok tt).
+Proof.
+  intros P. apply acceptance_depends_on_assertion_set_only; try reflexivity.
+  intros a. cbn [r_assertions]. split; intros H.
+  - eapply Permutation_in; eassumption.
+  - eapply Permutation_in; [apply Permutation_sym; eassumption | exact H].
+Qed.
